@@ -2053,7 +2053,7 @@ fn main() {
     res.rule = "case = history of ContinuityStore capability calls (17 capabilities, 7 append kinds, every selector / summary / stride / limit / dry_run / execute / block_on_inflight combination, 40 unknown / malformed / path-shaped thread ids, frames of 8190..100000 bytes), sidecar faults (delete all caches, torn tail, empty, stale prefix) and restarts; 16 named store states (in-flight job, backlog > max_new, all checkpointed, caches deleted / corrupt, restart, children, > 256 KiB thread) x every parameter combination of the read-only / dry-run / no-op invocations on a known id (a fault state is re-created before every call) and on `../events`; 5 thread contents x 9 (fault, restart) combinations x 42 core invocations; events.jsonl is read before and after EVERY call and at every log.* hook point inside EventLog::append; non-trivial = at least one appending call, one silent call and one fault or restart; distinct by hash of the call list; plus byte-level cases (EventLog::append alone, lines of 200..250000 bytes, file growth at the hook points compared with the BufWriter model), a second O_APPEND handle race, router-level cases (percent-encoded ids through the real axum router) and a live case (session runs, thread posts, a pipes task through the router), oracle only".into();
     let n = if a.thorough() { 1500 } else { 110 };
     let mut r = Rng::new(a.seed);
-    let mut w = CaseWriter::new(&a.out, "Model.Frames Model.Log Model.ContStore Model.LogBytes Model.NoopPlan Model.C02Cases", "check_case_c02x", "model_obs_c02x", 8);
+    let mut w = CaseWriter::new(&a.out, "Model.Frames Model.Log Model.ContStore Model.LogBytes Model.NoopPlan Model.C02Cases Gen.Effects", "check_case_c02g", "model_obs_c02g", 8);
     let mut distinct = Distinct::default();
     install_hook();
     let mut plan_seen: std::collections::HashSet<String> = Default::default();
